@@ -19,7 +19,7 @@
       *not* computed here: [numval tok] stands for strconv.ParseFloat ([None]: outside float64);
     - literals [true], [false], [null]; arrays and objects without trailing commas; object members
       in textual order, duplicates kept (the struct / map layer of EnvelopeModel decides).
-    Not modelled: the nesting limit of 10000 of both libraries.
+    The nesting limit of 10000 of both libraries: [too_deep], [parse_json].
     The jsoniter flavour is only meant for texts encoding/json accepts (json.RawMessage).
 
     [print numprint j] is the canonical client serialiser (compact, minimal escapes).
@@ -329,6 +329,29 @@ Section Parse.
     | Some (j, r) => match skip_ws r with [] => PTree j | _ :: _ => PTrail j end
     end.
 End Parse.
+
+(** ** the nesting limit.  Both libraries refuse a text that opens more than 10000 arrays / objects
+    at once (encoding/json scanner.go maxNestingDepth; "exceeded max depth"), whatever follows.
+    [too_deep]: a lexical scan — brackets outside strings. *)
+Fixpoint too_deep_aux (s : bytes) (in_str esc : bool) (opened : N) : bool :=
+  match s with
+  | [] => false
+  | c :: r =>
+      if in_str then
+        if esc then too_deep_aux r true false opened
+        else if c =? 92 then too_deep_aux r true true opened
+        else if c =? 34 then too_deep_aux r false false opened
+        else too_deep_aux r true false opened
+      else if c =? 34 then too_deep_aux r true false opened
+      else if (c =? 91) || (c =? 123) then (10000 <? opened + 1) || too_deep_aux r false false (opened + 1)
+      else if (c =? 93) || (c =? 125) then too_deep_aux r false false (opened - 1)
+      else too_deep_aux r false false opened
+  end.
+Definition too_deep (s : bytes) : bool := too_deep_aux s false false 0.
+
+(** what the library makes of a text: [parse_text] within the nesting limit *)
+Definition parse_json (fl : flavour) (numval : bytes -> option N) (text : bytes) : jparse :=
+  if too_deep text then PBad else parse_text fl numval text.
 
 (** the number tokens of a text (maximal runs of number characters outside strings that are
     well-formed numbers): what [numval] will be asked about *)
